@@ -149,9 +149,14 @@ impl SerialPort for SerDev {
     fn read_data_set_ready(&mut self) -> Result<bool> { Ok(true) }
     fn read_ring_indicator(&mut self) -> Result<bool> { Ok(false) }
     fn read_carrier_detect(&mut self) -> Result<bool> { Ok(true) }
-    fn bytes_to_read(&self) -> Result<u32> { Ok(0) }
+    // what has arrived so far: the bytes in front of the next 'no data yet' / error answer
+    fn bytes_to_read(&self) -> Result<u32> { let s = self.0.lock().unwrap(); Ok(s.rx.iter().take_while(|t| **t < 256).count() as u32) }
     fn bytes_to_write(&self) -> Result<u32> { Ok(0) }
-    fn clear(&self, _: ClearBuffer) -> Result<()> { Ok(()) }
+    // discarding the input buffer discards exactly those bytes (what arrives later is unaffected); written bytes count as sent at once
+    fn clear(&self, which: ClearBuffer) -> Result<()> {
+        if let ClearBuffer::Input | ClearBuffer::All = which { let mut s = self.0.lock().unwrap(); while let Some(t) = s.rx.front() { if *t < 256 { s.rx.pop_front(); } else { break; } } }
+        Ok(())
+    }
     fn try_clone(&self) -> Result<Box<dyn SerialPort>> { Ok(Box::new(self.clone())) }
     fn set_break(&self) -> Result<()> { Ok(()) }
     fn clear_break(&self) -> Result<()> { Ok(()) }
